@@ -233,8 +233,17 @@ def run(ctx):
     cases, dist = gen_cases(ctx)
     results = []
     B = 40
+    from harness.core import DriverError
     for i in range(0, len(cases), B):
-        results += ctx.impl.run('harness/impl/c02_driver.py', {'cases': cases[i:i + B]})['results']
+        try:
+            results += ctx.impl.run('harness/impl/c02_driver.py', {'cases': cases[i:i + B]})['results']
+        except DriverError:
+            # the interpreter died (the kernels run without bounds checks; FITPACK): isolate the case
+            for c in cases[i:i + B]:
+                try:
+                    results += ctx.impl.run('harness/impl/c02_driver.py', {'cases': [c]})['results']
+                except DriverError as e:
+                    results.append({'status': 'InterpreterDeath', 'msg': str(e)[:200]})
     npts = 0
     nfail = 0
     for ci, (c, r) in enumerate(zip(cases, results)):
